@@ -21,7 +21,7 @@ m = {
  "hooks": {
   "guard": "verif",
   "enable": "cd /repo && GOFLAGS=-mod=mod GOPROXY=off go build -tags verif -overlay /verif/.build/overlay-<pid>.json ./verifx/<harness>   (overlay maps /verif/harness/** into the module; /repo itself carries no hook commits)",
-  "baseline_off_cmd": "cd /repo && go test -vet=off -count=1 -timeout 25m ./...",
+  "baseline_off_cmd": "/verif/tools/baseline.sh   # = for m in . ./integration_tests: (cd /repo/$m && GOFLAGS=-mod=mod GOPROXY=off go test -json -vet=off -count=1 -timeout 25m ./...), compared with /root/.vp/BASELINE.json stable_pass; /repo carries no hook code, so the guard is off by construction",
   "source_commits": [],
   "add_only": True
  },
